@@ -1480,7 +1480,7 @@ func (c *FnCtx) invokeArbitrarilyAt(st *State, node ast.Node, call *ast.CallExpr
 func (c *FnCtx) callByEffects(st *State, call *ast.CallExpr, fn *types.Func, recv *Val, args []*Val, key string, ef *Effects) []*Val {
 	sig, _ := fn.Type().(*types.Signature)
 	c.autoFramed[key] = true
-	wr := c.V.regionsOf(ef.W)
+	wr := c.V.regionsOf(ef.allWrites())
 	rd := c.V.regionsOf(ef.R)
 	has := func(rs []string, names ...string) bool {
 		for _, r := range rs {
@@ -1530,23 +1530,8 @@ func (c *FnCtx) callByEffects(st *State, call *ast.CallExpr, fn *types.Func, rec
 		}
 	}
 	// frame
+	c.frameByEffects(st, ef)
 	ms := newModSet()
-	for k := range ef.W {
-		ms.heap[k] = true
-	}
-	for hk := range st.heap {
-		for k := range ef.W {
-			if strings.HasPrefix(hk, k+".") {
-				ms.heap[hk] = true
-			}
-		}
-		// content of abstract containers / maps reached through written pointer fields
-		if strings.HasPrefix(hk, "ptr.") || strings.HasPrefix(hk, "map.") {
-			if c.contentTouched(ef, hk) {
-				ms.heap[hk] = true
-			}
-		}
-	}
 	for g := range ef.G {
 		ms.ghost[g] = true
 	}
@@ -1639,7 +1624,7 @@ func (c *FnCtx) assertGates(st *State, call *ast.CallExpr, fn *types.Func, recv 
 	if c.con == nil || !c.con.Flags["lockcheck"] || ef == nil {
 		return
 	}
-	wr := c.V.regionsOf(ef.W)
+	wr := c.V.regionsOf(ef.allWrites())
 	rd := c.V.regionsOf(ef.R)
 	has := func(rs []string, names ...string) bool {
 		for _, r := range rs {
@@ -1706,6 +1691,12 @@ func (c *FnCtx) frameByEffects(st *State, ef *Effects) {
 	for k := range ef.W {
 		ms.heap[k] = true
 	}
+	c.contentTouched(ef, "")
+	for k := range ef.C {
+		if ck, known := c.V.fieldContent[k]; known && ck == "" {
+			ms.heap[k] = true // by-value abstract container: its content is the field's value
+		}
+	}
 	for hk := range st.heap {
 		for k := range ef.W {
 			if strings.HasPrefix(hk, k+".") {
@@ -1722,7 +1713,7 @@ func (c *FnCtx) frameByEffects(st *State, ef *Effects) {
 // contentTouched: may a callee with these effects change the content heap hk (pointees of abstract containers, maps)?
 // Yes when one of the fields it writes has a type whose pointee / map content lives in hk.
 func (c *FnCtx) contentTouched(ef *Effects, hk string) bool {
-	if len(ef.W) == 0 {
+	if len(ef.W) == 0 && len(ef.C) == 0 {
 		return false
 	}
 	if c.V.fieldContent == nil {
@@ -1756,7 +1747,7 @@ func (c *FnCtx) contentTouched(ef *Effects, hk string) bool {
 			}
 		}
 	}
-	for w := range ef.W {
+	for w := range ef.allWrites() {
 		ck, known := c.V.fieldContent[w]
 		if !known {
 			// a field we know nothing about (not a pointer/map): cannot reach a content heap
@@ -1774,10 +1765,26 @@ func (c *FnCtx) contentKeys(ef *Effects) []string {
 	c.contentTouched(ef, "") // make sure the table exists
 	seen := map[string]bool{}
 	var out []string
-	for w := range ef.W {
+	for w := range ef.allWrites() {
 		if ck := c.V.fieldContent[w]; ck != "" && !seen[ck] {
 			seen[ck] = true
 			out = append(out, ck)
+		}
+	}
+	return out
+}
+
+// effectFieldKeys: field heaps a callee with these effects may change (assigned fields, and by-value abstract
+// containers whose content it changes)
+func (c *FnCtx) effectFieldKeys(ef *Effects) []string {
+	c.contentTouched(ef, "")
+	var out []string
+	for k := range ef.W {
+		out = append(out, k)
+	}
+	for k := range ef.C {
+		if ck, known := c.V.fieldContent[k]; known && ck == "" {
+			out = append(out, k)
 		}
 	}
 	return out
